@@ -75,12 +75,13 @@ CHECKS["C01"] = dict(
    text=("The full statement (every access of a body is reported) is REFUTED: C01_refuted / C01_refuted_each_class give one kernel-checked witness per finding class (slice, inner-call arguments, getattr-family arguments, "
          "nested-def defaults, deep unnameable root, namedtuple declaration, class-instantiation annotation), each replayed on rattr and listed in KNOWN_FINDINGS.json. Proved for every node, state and outcome: no visitor ever removes "
          "from the IR (C01_visitors_only_add, tree induction over all node classes) and a node class without dedicated visitor visits all its children (C01_generic_visit_descends_everywhere). The claim 'every access outside the "
-         "finding-class positions is reported' is, in this version, decided by the Coq specification `occs false` evaluated on rattr's own IR over the generated catalogue (every nameable kind x every statement/expression position x load/store/delete, "
+         "finding-class positions is reported' is PROVED for the call-free load fragment (C01_call_free_loads_are_complete: names, attribute / subscript / starred chains and every node class without a dedicated visitor, tuples, lists, sets, dicts, nested to any depth - the visit ends normally and reports every access `occs false` lists) and beyond that fragment is decided by the Coq specification `occs false` evaluated on rattr's own IR over the generated catalogue (every nameable kind x every statement/expression position x load/store/delete, "
          "depth 2 quick / 3 thorough, + random bodies) and by the exact model/rattr correspondence on the same inputs - exhaustive within the bound, not a theorem beyond it."),
    note=FA_NOTE, design_ref="DESIGN.md section 6 C01, Appendix B, section 11")
 CHECKS["C02"] = dict(
    technique="Coq: leaf exactness theorem (a Name is reported under the kind of its context only), reader lemmas for all helpers; spec checker `phantoms` (allowed = occurrences + documented derivations) judges rattr's IR; differential correspondence",
-   text=("Proved for all inputs: visiting a variable adds exactly that variable under the kind of its expression context and changes nothing else (C02_name_reported_under_its_kind_only); all naming / dispatch helpers only read the state (C02_helpers_are_readers). "
+   text=("Proved for all inputs: visiting a variable adds exactly that variable under the kind of its expression context and changes nothing else (C02_name_reported_under_its_kind_only); all naming / dispatch helpers only read the state (C02_helpers_are_readers); "
+         "on the call-free load fragment of any depth the visit adds only gets that `occs false` lists and leaves sets, dels and calls untouched (C02_call_free_loads_report_nothing_else). "
          "That every reported get/set/del/call of a whole body is the spelling of an expression of the body of the right kind or a documented derivation (receiver prefixes, getattr-family targets) is decided by the Coq checker `phantoms` on rattr's own IR over the "
          "generated catalogue plus the exact model/rattr correspondence - exhaustive within the bound."),
    note=FA_NOTE, design_ref="DESIGN.md section 6 C02, section 11")
@@ -103,7 +104,8 @@ RES_NOTE = COMMON_NOTE + ("Shared result-generation model coq/model/Results.v: s
 CHECKS["C03"] = dict(
    technique="Coq: refutation witnesses (vm_compute on the faithful model), store-monotonicity of the fold by induction over arbitrary trees, string-level unbind lemmas, single-node-tree theorem; closure spec (lower/upper bounds with Python binding) judging rattr's results; exact model/rattr correspondence incl. mutated IR",
    text=("Full statement REFUTED twice (C03_refuted_compound_argument, C03_refuted_shared_callee; known findings KF_C03_1/2). Proved for every tree/store/call: inlining only adds (C03_inlining_only_adds), names with unbound base pass unchanged and a bound prefix is replaced by the "
-         "argument text with THAT TEXT as new base (C03_unbound_names_pass_unchanged, C03_bound_prefix_is_replaced - the exact statement of the compound-argument defect), a function without resolvable call gets a one-node tree (C03_no_resolvable_call_no_inlining). "
+         "argument text with THAT TEXT as new base (C03_unbound_names_pass_unchanged, C03_bound_prefix_is_replaced - the exact statement of the compound-argument defect), a function without resolvable call gets a one-node tree (C03_no_resolvable_call_no_inlining), the call tree is always built - the BFS fuel is never exhausted (C03_call_tree_always_built), "
+         "and at depth one, for every caller / leaf callee / call / store, the caller gets exactly own U unbind(callee, swaps) and nothing else changes (C03_one_level_tree, C03_one_level_closure). "
          "'results = closure' outside the two finding classes is decided by the Coq closure checkers (lower_ok / upper_ok / calls_ok, binding = spec/PyBind.v) on rattr's own results over tree-shaped and random call graphs x definition orders, with the model compared exactly to rattr."),
    note=RES_NOTE, design_ref="DESIGN.md section 6 C03, Appendix A, section 11")
 CHECKS["C14"] = dict(
@@ -150,13 +152,13 @@ IMP_NOTE = COMMON_NOTE + ("Shared import model coq/model/Imports.v (+Results.v).
 CHECKS["C06"] = dict(
    technique="Coq: resolver theorem by induction over re-export chains of any length (inductive `chain` predicate), linking lemma into the result-generation model, kernel-checked refutations (aliased from-import; re-export cycle for every fuel); metamorphic comparison split-project vs single-file merge on the real pipeline over 12 import forms x package layouts x cycles; exact model/rattr correspondence of results, mutated IR, every call resolution and analysed modules",
    text=("C06_resolver_follows_reexport_chains (any chain length, functions and classes), C06_imported_call_expands_like_local_call (an imported call resolves to exactly the entry a local call to the definition resolves to, so the fold is the same), "
-         "C06_unresolved_import_contributes_nothing; REFUTED: C06_aliased_from_import_refuted (KF_C06_1), C06_reexport_cycle_refuted (for every fuel; KF_C06_4). 'Same answer as the single file' is decided per generated project by comparing the real results of the split project with the real results of its merge; "
-         "a difference is a known finding only when the project contains a reference of a listed finding class (aliased from-import, dotted import without alias, imported class instantiation, static method through module / through from-import, re-export cycle) AND the model reproduces rattr's results, mutated IR and every call resolution exactly."),
+         "C06_unresolved_import_contributes_nothing, C06_reexport_cycle_terminates + C06_resolver_always_terminates (import cycles terminate: visited set, fix 99a8b20); REFUTED: C06_aliased_from_import_refuted (KF_C06_1). 'Same answer as the single file' is decided per generated project by comparing the real results of the split project with the real results of its merge; "
+         "a difference is a known finding only when the project contains a reference of a listed finding class (aliased from-import, dotted import without alias, imported class instantiation, static method through module / through from-import) AND the model reproduces rattr's results, mutated IR and every call resolution exactly."),
    note=IMP_NOTE + " Function / class names are unique across modules of a generated project; call graphs are tree-shaped with plain-name arguments (outside the C03 finding classes).",
    design_ref="DESIGN.md section 6 C06, section 11")
 CHECKS["C12"] = dict(
    technique="Coq: BFS invariants by induction on fuel for arbitrary import graphs (soundness w.r.t. the filter ladder, NoDup of origins, closure under imports of analysed modules = completeness), resolver answers only within analysed permitted modules; specification = closure of the import graph read from sources with Python's ast / PathFinder under an independent classification, judged in Coq against what rattr analysed; model/rattr correspondence of import_irs (names, origins, order)",
-   text=("For every import graph (cycles, diamonds), queue, classification and option setting: C12_only_permitted_modules_are_analysed, C12_level_0_analyses_nothing, C12_each_origin_once, C12_analysed_set_is_closed (every import of the target and of every analysed module is unresolvable, not permitted, or analysed - hence every permitted module reachable through permitted modules is analysed), "
+   text=("For every import graph (cycles, diamonds), queue, classification and option setting: C12_only_permitted_modules_are_analysed, C12_level_0_analyses_nothing, C12_each_origin_once, C12_analysed_set_is_closed (every import of the target and of every analysed module is unresolvable, not permitted, without Python source, or analysed), C12_every_reachable_permitted_module_is_analysed (inductive reachability through import statements naming permitted modules with source), "
          "C12_unanalysed_modules_contribute_nothing. The oracles (locator, blacklist / pip / stdlib predicates) are tied to the levels by the specification side of ./check C12: generated projects over local modules and packages, a site-packages directory (regular package, plain module, PEP 420 namespace package), stdlib modules and rattr itself, x follow level 0-3 x exclusion patterns; "
          "the set rattr analysed must equal the closure of the source-level import graph filtered by directory-based classification; distinctive attributes of functions in non-analysed modules must not appear in results; `-o stats` unique-import count must equal the number of analysed modules."),
    note=IMP_NOTE + " The specification's import graph counts the module an import statement names (for `from m import x`: m.x if that is a module, else m), not the package __init__ files Python executes on the way. Level 3 is exercised only with stdlib modules free of extension-module imports (README warning).",
@@ -173,7 +175,7 @@ CHECKS["C11"] = dict(
 
 CHECKS["C08"] = dict(
    technique="Coq: theorems about the call-target function over arbitrary scope chains (bare names follow the chain innermost-first, own-scope parameters shadow, non-import receivers give no target, special callees give no target, only function / class targets are expanded), kernel-checked refutation for parameters registered with a plain add; specification spec/Scoping.v judging real end-to-end inlining per cell of the symbol kind x call form x shadowing matrix; FunctionAnalyser model correspondence on every calling function",
-   text=("C08_bare_call_follows_scope_chain, C08_parameter_in_own_scope_shadows, C08_variable_or_builtin_target_never_inlined, C08_method_on_non_import_has_no_target (whatever the module level defines), C08_special_callee_has_no_target - for every scope chain and name; "
+   text=("C08_bare_call_follows_scope_chain, C08_parameter_in_own_scope_shadows, C08_variable_or_builtin_target_never_inlined, C08_method_on_non_import_has_no_target (whatever the module level defines), C08_special_callee_has_no_target, C08_module_member_call_targets_the_import, C08_member_of_non_module_import_has_no_target - for every scope chain and name; "
          "REFUTED: C08_parameter_named_like_function_refuted (KF_C08_1: parameters are added with a plain Context.add). Whether rattr's decision equals Python's is decided per call site by the Coq specification expected_inline on the real results of a module holding one calling function per matrix cell "
          "(wrong-callee detection through distinctive attribute names: same-named function / class in a followed import, re-bound function); a deviation is a known finding only for sites whose callee base is a parameter spelled like a module-level name and whose function passes the FunctionAnalyser correspondence."),
    note=FA_NOTE + " The specification reads the property's statement: parameters of the function and of enclosing lambdas shadow; locals are not judged; definitions precede callers in the matrix module.",
@@ -181,11 +183,11 @@ CHECKS["C08"] = dict(
 
 CHECKS["C07"] = dict(
    technique="Coq (partial): termination theorem for the import BFS with an explicit fuel bound (measure = unseen origins x max imports + queue length), accept-or-fatal theorem for annotation validation, kernel-checked refutation witnesses (the faithful visitor model raises on unnameable store / del / for receivers; the resolver model never terminates on a re-export cycle); search by grammar-wide generated real runs (function bodies through the FunctionAnalyser correspondence, module shapes as subprocesses x option sets)",
-   text=("PARTIAL, by nature of the property. Proved for all inputs: C07_import_bfs_terminates (any import graph, cycles included), C07_annotation_accepts_or_is_fatal; the visitors and resolvers of the model are structurally recursive Gallina functions, i.e. total. "
-         "Refuted on the faithful model: C07_unnameable_receiver_refuted (KF_C07_4), C07_reexport_cycle_never_ends (KF_C07_6). Everything else this check does is testing, labelled so in the evidence: every function body of the C01 catalogue (an escaping exception is a violation unless the model predicts exactly that exception), "
+   text=("PARTIAL, by nature of the property. Proved for all inputs: C07_import_bfs_terminates (any import graph, cycles included), C07_call_tree_bfs_terminates, C07_import_resolver_terminates (visited set; false before fix 99a8b20), C07_annotation_accepts_or_is_fatal, "
+         "C07_call_free_code_never_raises (the call-free load fragment, any depth); the visitors of the model are structurally recursive Gallina functions, i.e. total. Refuted on the faithful model: C07_unnameable_receiver_refuted (KF_C07_4). Everything else this check does is testing, labelled so in the evidence: every function body of the C01 catalogue (an escaping exception is a violation unless the model predicts exactly that exception), "
          "and every module-level construct of the 3.12 grammar alone, on the imported side, combined, x 20 option sets, plus fixed projects (cycles, one file under two names, stdlib at -f 3, deep nesting, long chains) as real subprocesses judged by exit status, JSON validity and the last stderr lines, with a 60 s limit standing in for non-termination. "
-         "Seven finding classes are listed; any crash outside them (by construct label and exception class) is reported with the program and command line as replay."),
-   note=COMMON_NOTE + "Crashes inside unmodelled library code (cattrs, argparse, isort, ast) can only be met by the generated runs. The wrong-shape cache crash (C19) and the malformed-annotation crashes (C11) were repaired by fix commits e026aed and 66cc389.",
+         "Three finding classes remain listed (five were repaired by fix commits); any crash outside them (by construct label and exception class) is reported with the program and command line as replay."),
+   note=COMMON_NOTE + "Crashes inside unmodelled library code (cattrs, argparse, isort, ast) can only be met by the generated runs. Repaired by fix commits: wrong-shape cache (e026aed), malformed annotation arguments (66cc389), non-name decorators (9f188b4), dotted star imports (af9886c), modules without source (abc9d1e), unresolved imports escaping as ImportError (2dc8e10), re-export cycles (99a8b20).",
    design_ref="DESIGN.md section 6 C07, section 11")
 
 NOT_YET = {}
